@@ -26,6 +26,7 @@ META = {
     "outside": ["whole-program 'open succeeds' on materialised crash images; kill points inside ldb_versions_apply and ldb_set_current_file (C02.d/e, C17)",
                 "writes after recovery taking precedence and persisting: decided through the counters (last_sequence above every recovered sequence here; ldb_write starts from it, C04/C08) and C01, not by running a second history",
                 "more than 3 names / 3 records"],
+    "notes": ["file numbers are unique per file type only: ldb_versions_recover reuses the recorded next-file number for the new MANIFEST, and a level-0 table written while replaying an early log can receive the number of a later, not yet registered log (names differ by suffix; same in LevelDB). The obligations therefore require 'new log number above every replayed log and every recovered table' only for a NEWLY allocated log, not for a reused last log."],
     "models": ["harness/dbimpl/world.h ghost mutex/condvar",
                "harness/dbimpl/recover_world.h (encoded file names, symbolic listings, version-set contracts, record source, abstract batches, lifetime monitors for memtable/files/writer/lock/db object, abstract rb_set64, fault-injecting env)",
                "ldb_array_sort as a compare-exchange network over the real compare_ascending (real quicksort: C03 b.array-sort-*)",
